@@ -205,7 +205,8 @@ impl Model for Node {
         self.enter();
         self.sh.log.lock().unwrap().push(Rec::Init(self.id));
         self.sh.ctx_names.lock().unwrap().push((self.id, cx.name().to_string()));
-        let p = 900 + self.id as u128;
+        // a value no generated message can carry (children end in a digit 1..9, roots are below 9000)
+        let p = 9000 + 10 * self.id as u128;
         self.run_script(true, p).await;
         self.leave();
         self.into()
@@ -671,7 +672,7 @@ fn causal_violation(specs: &[ModelSpec], recs: &[Rec]) -> Option<String> {
         match r {
             Rec::Handle(m, p) => order.entry(*m).or_default().push(*p),
             Rec::Sent(m, hp, k, child, q) => {
-                let script = if *hp >= 900 && *hp < 900 + specs.len() as u128 && *hp == 900 + *m as u128 { &specs[*m].initops } else { &specs[*m].react };
+                let script = if *hp == 9000 + 10 * *m as u128 { &specs[*m].initops } else { &specs[*m].react };
                 if let Some(op) = script.get(*k) {
                     if let Some(conns) = specs[*m].ports.get(&op.port) {
                         for c in conns {
